@@ -221,8 +221,10 @@ impl Operator {
 }
 
 fn escape_filter_value(value: &str) -> Cow<'_, str> {
-    if value.contains('"') {
-        Cow::Owned(value.replace('"', r#"\\""#))
+    if value.contains(['"', '\\']) {
+        // A backslash has to survive two rounds of unescaping on the server: that of the quoted
+        // command argument and that of the quoted value inside the expression
+        Cow::Owned(value.replace('\\', r"\\\\").replace('"', r#"\\""#))
     } else {
         Cow::Borrowed(value)
     }
